@@ -84,7 +84,7 @@ def whole_remainder(eng, v, side):
         trs = [t for t in transfers(p) if not t.get('bad')]
         if side == 'ask':
             ASK = stored('ask', M(v, 'id')); CLASS = F(ASK, 'class'); STATUS = V(CLASS, 'Convertible', 'status')
-            ready = p.variant_of(CLASS) == 'Convertible' and p.variant_of(STATUS) == 'Ready'
+            ready = ask_class_presence(eng, PROP, p, ASK, 'the ask exits') == 'Ready'
             if ready: dom.assume_ready_ask(ASK)
             exp = [(F(ASK, 'base'), F(ASK, 'size'), F(ASK, 'owner'))]
             if ready: exp.append((F(V(STATUS, 'Ready', 'converted_base'), 'denom'), F(ASK, 'size'), V(STATUS, 'Ready', 'approver')))
@@ -93,7 +93,7 @@ def whole_remainder(eng, v, side):
                    where=p, detail=p.describe(), sample={'rule': 'exit-pays-remainder', 'request': v, 'paid': [(K(t['denom']), K(t['amount']), K(t['to'])) for t in trs]})
         else:
             BID = stored('bid', M(v, 'id')); bs = BidSpec(BID)
-            has_fee = p.variant_of(bs.FEE) == 'Some'
+            has_fee = fee_presence(eng, PROP, p, bs.FEE, 'the bid exits') == 'Some'
             dom.assume_bid(BID, has_fee)
             # L-uns (not (x > 0) => x == 0) is applied by the domain itself
             total = I(0)
